@@ -378,8 +378,13 @@ func (ap *app) runConduct(bctx context.Context) error {
 		if err := unix.Kill(unix.Getpid(), sig.(sysutil.Signal)); err != nil {
 			log.Fatalf(context.Background(), "unable to forward signal %v: %v", sig, err)
 		}
-		// Block while we wait for the signal to be delivered.
-		select {}
+		// Block while we wait for the signal to be delivered. If the
+		// signal was ignored when the process was started (nohup, a
+		// background job of a non-interactive shell), Reset has made it
+		// ignored again and it never is: exit the way it would have
+		// ended us.
+		time.Sleep(time.Second)
+		os.Exit(128 + int(sig.(sysutil.Signal)))
 
 	case <-time.After(time.Minute):
 		return errors.Errorf("time limit reached, initiating hard shutdown")
